@@ -164,7 +164,7 @@ static const char *check_shape(const FDir &d, const std::string &out, Parsed &P,
             b++;
     char es = std::signbit(d.x) ? '-' : (d.flags & F_PLUS) ? '+' : (d.flags & F_SPACE) ? ' ' : 0;
     size_t lead_spaces = b;
-    if (es == ' ')
+    if (es == ' ' && !left)
     {
         // the blank of the space flag is indistinguishable from padding: it must be there, directly before the number
         if (lead_spaces == 0)
@@ -256,11 +256,16 @@ static const char *check_shape(const FDir &d, const std::string &out, Parsed &P,
     }
     // ---- g
     int Pg = prec == 0 ? 1 : prec;
+    // X = decimal exponent of the value.  At a power of ten it is not unique within the conceded error: the
+    // exponent before rounding to P digits (of |x| - 4 ulp) and after it (of |x| + 4 ulp) are both accepted.
     int Xlo = 0, Xhi = 0;
     if (d.x != 0)
     {
-        Xlo = dec_exponent(fabs(d.x), 21);
-        Xhi = dec_exponent(fabs(d.x), Pg);
+        double ax = fabs(d.x);
+        double u4 = 4 * (nextafter(ax, INFINITY) - ax);
+        double lo = ax - u4 > 0 ? ax - u4 : ax, hi = std::isfinite(ax + u4) ? ax + u4 : ax;
+        Xlo = dec_exponent(lo, 21);
+        Xhi = dec_exponent(hi, Pg);
     }
     bool style_lo = Xlo < -4 || Xlo >= Pg, style_hi = Xhi < -4 || Xhi >= Pg;
     if (P.has_exp != style_lo && P.has_exp != style_hi)
@@ -415,7 +420,9 @@ static void check_one(const FDir &d, const std::string &prefix, const std::strin
         // result, so "the last printed digit" is the P-th significant one (exponent taken after rounding: the larger)
         bool pg = d.pk == P_LIT || d.pk == P_DOT || (d.pk == P_STAR && d.prec >= 0);
         int Pg = !pg ? 6 : (d.pk == P_DOT || d.prec == 0) ? 1 : d.prec;
-        unit_exp = dec_exponent(fabs(d.x), Pg) - Pg + 1;
+        double ax = fabs(d.x);
+        double hi = ax + 4 * (nextafter(ax, INFINITY) - ax);
+        unit_exp = dec_exponent(std::isfinite(hi) ? hi : ax, Pg) - Pg + 1;
     }
     long double unit = powl(10.0L, (long double)unit_exp);
     double ax = fabs(d.x);
@@ -426,9 +433,13 @@ static void check_one(const FDir &d, const std::string &prefix, const std::strin
     long double err = fabsl(v - (long double)d.x);
     if (!(err <= allow))
     {
-        snprintf(key, sizeof key, "accuracy:%%%c:%s", lc, vc);
-        vf::fail_nothrow(key, "format=\"%s\" args=[%s] igris=\"%s\": parsed back it is off by %.3Lg = %.2Lf x the allowance (half a unit of the last digit %.3Lg + 4 ulp %.3Lg)",
-                         fmt.c_str(), a.c_str(), shown.c_str(), err, err / allow, unit / 2, 4 * ulp);
+        // Two kinds of violation get different keys: a wrong digit (the error exceeds the half unit by more than
+        // 64 ulp(x): wrong rounding direction, lost or garbled digit) and arithmetic noise of the digit generation
+        // (more than the 4 ulp the statement concedes, but below 64 ulp).  Both are violations.
+        bool noise = err <= unit / 2 + 64 * ulp;
+        snprintf(key, sizeof key, "%s:%%%c:%s", noise ? "accuracy-ulps" : "accuracy", lc, vc);
+        vf::fail_nothrow(key, "format=\"%s\" args=[%s] igris=\"%s\": parsed back it is off by %.3Lg = half a unit of the last digit (%.3Lg) + %.2Lf ulp; allowed: half a unit + 4 ulp (ulp = %.3Lg)",
+                         fmt.c_str(), a.c_str(), shown.c_str(), err, unit / 2, (err - unit / 2) / ulp, ulp);
         return;
     }
     VF_OK("finite: text parses back within half a unit of the last printed digit + 4 ulp");
@@ -625,6 +636,82 @@ static void grid_run(uint64_t idx)
     }
 }
 VF_SUITE(grid, grid_count, grid_run)
+
+// ---------------------------------------------------------------- suite 0: witnesses of the open accuracy finding
+// The digit generation of print_f works in double arithmetic (repeated *10 and /10); its error exceeds the 4 ulp the
+// statement concedes only for rare arguments.  One witness per (conversion, value class) is replayed in every run
+// so that the open finding is re-observed deterministically instead of depending on the seed.
+struct Witness
+{
+    char conv;
+    int prec;
+    uint64_t bits;
+};
+static const Witness WITNESS[] = {
+    {'e', 16, 0xbf29ff3505072237ull}, // accuracy-ulps:%e:abs<1  %.16e of -0.0001983406277885778
+    {'e', 16, 0x2056c7757792daa1ull}, // accuracy-ulps:%e:abs<1e-4  %.16e of 6.7957823603944425e-153
+    {'e', 17, 0xc28c120ac445f994ull}, // accuracy-ulps:%e:abs<1e15  %.17e of -3857976953023.1973
+    {'e', 17, 0xc13adf7dcff3a2a0ull}, // accuracy-ulps:%e:abs<1e9  %.17e of -1761149.8123113289
+    {'E', 16, 0xc3df7e17207a1356ull}, // accuracy-ulps:%e:abs<2^64  %.16E of -9.0771067619831542e+18
+    {'e', 16, 0x8006d8f2e8e84ec5ull}, // accuracy-ulps:%e:denormal  %.16e of -9.522560297594262e-309
+    {'e', 17, 0xfa4326ad8acc377cull}, // accuracy-ulps:%e:huge  %.17e of -8.6907922420910751e+280
+    {'F', 17, 0xbfdf0637ed66924dull}, // accuracy-ulps:%f:abs<1  %.17F of -0.48475454505595367
+    {'f', 16, 0xc3bfd26c1d277f2bull}, // accuracy-ulps:%f:abs<2^64  %.16f of -2.2930140327575007e+18
+    {'f', 16, 0xf398c95d89ffdf94ull}, // accuracy-ulps:%f:huge  %.16f of -6.9322322709896365e+248
+    {'g', 16, 0xbfb8a2ded686f088ull}, // accuracy-ulps:%g:abs<1  %.16g of -0.096235206007749707
+    {'g', 16, 0xa68fd22cfcd1dd1dull}, // accuracy-ulps:%g:abs<1e-4  %.16g of -6.0170773085570351e-123
+    {'g', 17, 0xc3baddbf138cb2caull}, // accuracy-ulps:%g:abs<2^64  %.17g of -1.9359135055249925e+18
+    {'g', 17, 0x00070193350d84daull}, // accuracy-ulps:%g:denormal  %.17g of 9.74325417157832e-309
+    {'G', 15, 0x7e2e18f4a7a3db9full}, // accuracy-ulps:%g:huge  %.15G of 6.2987719210102838e+299
+};
+static uint64_t witness_count() { return enabled("witness") ? sizeof WITNESS / sizeof WITNESS[0] : 0; }
+static void witness_run(uint64_t idx)
+{
+    FDir d;
+    d.conv = WITNESS[idx].conv;
+    d.pk = P_LIT;
+    d.prec = WITNESS[idx].prec;
+    d.x = from_bits(WITNESS[idx].bits);
+    check_one(d, "", "");
+    flush_features();
+}
+VF_SUITE(witness, witness_count, witness_run)
+
+// ---------------------------------------------------------------- suite 3: stress — 15..17 significant digits over every magnitude class
+// (the digit generation works in double arithmetic; this is where its accumulated error shows)
+static uint64_t stress_count()
+{
+    const char *m = getenv("C13_STRESS_MULT"); // debugging aid: hunt for rare witnesses
+    return enabled("stress") ? (vf::thorough() ? 6000 : 600) * (m ? strtoull(m, nullptr, 0) : 1) : 0;
+}
+static void stress_run(uint64_t idx)
+{
+    vf::Rng r(vf::seed(), 0xC135, idx);
+    // decade ranges of the value classes: denormal, abs<1e-4, abs<1, abs<1e9, abs<1e15, abs<2^64, huge
+    static const int LO[7] = {-323, -307, -4, 0, 9, 15, 20}, HI[7] = {-309, -5, -1, 8, 14, 18, 307};
+    int k = (int)(idx % 7);
+    char conv = "feg"[(idx / 7) % 3];
+    for (int i = 0; i < 200; i++)
+    {
+        FDir d;
+        d.conv = r.chance(1, 4) ? (char)(conv - 32) : conv;
+        double m = 1.0 + ((double)(r.next() >> 11) / 9007199254740992.0) * 9.0;
+        d.x = m * pow(10.0, (double)r.range(LO[k], HI[k]));
+        if (!std::isfinite(d.x) || d.x == 0)
+            d.x = DBL_MAX;
+        if (r.chance(1, 2))
+            d.x = -d.x;
+        d.pk = P_LIT;
+        d.prec = r.range(14, 17);
+        if (r.chance(1, 4))
+            d.flags = (unsigned)r.below(32);
+        if (r.chance(1, 4))
+            d.wk = W_LIT, d.width = 30;
+        check_one(d, "", "");
+    }
+    flush_features();
+}
+VF_SUITE(stress, stress_count, stress_run)
 
 extern "C" void vf_setup()
 {
